@@ -6,6 +6,7 @@ import (
 	"go/types"
 	"sort"
 	"strings"
+	"sync"
 
 	"golang.org/x/tools/go/ssa"
 )
@@ -56,6 +57,10 @@ type Exec struct {
 	tparam      map[string]types.Type
 	warnings    []string
 	assumptions map[string]bool
+	defBody     map[string]string // define-fun names of address arithmetic -> their bodies (see lin.go)
+	defMu       sync.Mutex
+	mulBody     map[string]string // define-fun names whose body is a product (sizes of allocations)
+	valWidth    map[string]int    // bit width of the values written by multi-byte stores, by term
 	pathID      int
 	typeIDs     map[string]uint64
 	loops       map[*ssa.Function]*loopInfo
@@ -99,26 +104,34 @@ type Frame struct {
 }
 
 type State struct {
-	x         *Exec
-	script    []string
-	env       map[ssa.Value]V
-	mem       map[string]*MemVer
-	inst      map[*MemVer]map[string]bool
-	modified  map[string]bool
-	shadow    map[string]*Prov
-	brk       map[string]string
-	frames    []*Frame
-	inputs    []inputSym
-	nlocal    int
-	regions   int
-	allocs    []string         // allocation size terms (elements), for the allocation bound
-	pool      map[int][]string // instantiation terms by width, for callee quantifiers
-	stale     map[string]bool  // pointer terms whose pointee may hold contents left over from earlier use
-	ghostMemo map[string][]V   // results of ghost calls by (callee, argument terms, memory versions)
-	strConst  map[string]V     // string constants by content
-	qasm      []*qAssume       // quantified assumptions, instantiated again whenever a new term appears
-	inLate    bool
-	loopInits [][2]string // (havocked loop symbol, its value on loop entry): replay prefers first iterations
+	x          *Exec
+	script     []string
+	env        map[ssa.Value]V
+	mem        map[string]*MemVer
+	inst       map[*MemVer]map[string]bool
+	modified   map[string]bool
+	shadow     map[string]*Prov
+	brk        map[string]string
+	frames     []*Frame
+	inputs     []inputSym
+	nlocal     int
+	regions    int
+	allocs     []string          // allocation size terms (elements), for the allocation bound
+	pool       map[int][]string  // instantiation terms by width, for callee quantifiers
+	stale      map[string]bool   // pointer terms whose pointee may hold contents left over from earlier use
+	ghostMemo  map[string][]V    // results of ghost calls by (callee, argument terms, memory versions)
+	strConst   map[string]V      // string constants by content
+	loopStores []storeRange      // set while a loop is being cut: the body's heap stores, when all are at addresses fixed before the loop
+	loopFresh  bool              // with loopStores: the body also stores into objects allocated by this function
+	defMemo    map[string]string // define-fun bodies already named on this path
+	lemmaSeen  map[string]bool   // arithmetic lemmas already asserted on this path (elemLemma)
+	boundedIdx map[string]bool   // index terms known to lie in [0, 2^40) on this path (bounds checked or clamped)
+	storeFresh bool              // set around a store whose target lies in an object allocated by this function
+	loadMeta   bool              // set around a load from codec metadata
+	loadFresh  bool              // set around a load from an object allocated by this function
+	qasm       []*qAssume        // quantified assumptions, instantiated again whenever a new term appears
+	inLate     bool
+	loopInits  [][2]string // (havocked loop symbol, its value on loop entry): replay prefers first iterations
 }
 
 func (st *State) fork() *State {
@@ -182,6 +195,18 @@ func (st *State) fork() *State {
 	for k, v := range st.stale {
 		n.stale[k] = v
 	}
+	n.defMemo = make(map[string]string, len(st.defMemo))
+	for k, v := range st.defMemo {
+		n.defMemo[k] = v
+	}
+	n.lemmaSeen = make(map[string]bool, len(st.lemmaSeen))
+	for k, v := range st.lemmaSeen {
+		n.lemmaSeen[k] = v
+	}
+	n.boundedIdx = make(map[string]bool, len(st.boundedIdx))
+	for k, v := range st.boundedIdx {
+		n.boundedIdx[k] = v
+	}
 	n.strConst = map[string]V{}
 	for k, v := range st.strConst {
 		n.strConst[k] = v
@@ -227,10 +252,35 @@ func (st *State) define(prefix, sort, term string) string {
 	if len(term) < 24 || !strings.HasPrefix(term, "(") {
 		return term
 	}
+	if prev, ok := st.defMemo[term]; ok {
+		return prev // the same term was named before on this path
+	}
 	st.x.fresh++
 	n := fmt.Sprintf("%s_%d", sanitize(prefix), st.x.fresh)
+	if st.defMemo == nil {
+		st.defMemo = map[string]string{}
+	}
+	st.defMemo[term] = n
 	st.script = append(st.script, fmt.Sprintf("(define-fun %s () %s %s)", n, sort, term))
+	if sort == "(_ BitVec 64)" && strings.HasPrefix(term, "(bvmul ") {
+		st.x.defMu.Lock()
+		st.x.mulBody[n] = term
+		st.x.defMu.Unlock()
+	}
+	if sort == "(_ BitVec 64)" && (strings.HasPrefix(term, "(bvadd ") || strings.HasPrefix(term, "(bvsub ")) {
+		st.x.defMu.Lock()
+		st.x.defBody[n] = term
+		st.x.defMu.Unlock()
+	}
 	return n
+}
+
+// markBounded records that index term t lies in [0, 2^40) on this path.
+func (st *State) markBounded(t string) {
+	if st.boundedIdx == nil {
+		st.boundedIdx = map[string]bool{}
+	}
+	st.boundedIdx[t] = true
 }
 
 func (st *State) assume(c string) {
